@@ -286,9 +286,104 @@ def reader_case(ctx, i, rng):
     ctx.fingerprint(("reader", os.path.basename(f)), True)
 
 
+def cross_policy_case(ctx, i, rng):
+    """A subtree built as an ORPHAN under the DEFAULT policy (where any identifier is accepted) is added to an EDIF-policy
+    parent: the add must be refused exactly when the subtree holds an illegal identifier or siblings whose identifiers are
+    equal ignoring case, at ANY depth; an accepted add must leave every scope legal and unique."""
+    sdn.namespace_manager.default = "EDIF"
+    n = sdn.Netlist("n")
+    host_lib = n.create_library("host")
+    host_def = host_lib.create_definition("hostdef")
+    sdn.namespace_manager.default = "DEFAULT"
+    ids_pool = ["a", "A", "b", "x_1", "&9", "9a", "a-b", "_n", "bus[3]", "ok1", "Ok1", "q"]
+    planted = rng.random() < 0.6
+    depth_of_offence = rng.choice(["library", "definition", "child", "child", "child"]) if planted else None
+
+    def ident(x, legal_only):
+        pool = [v for v in ids_pool if LEGAL.match(v)] if legal_only else ids_pool
+        x["EDIF.identifier"] = rng.choice(pool)
+
+    lib = sdn.Library("orph_lib")
+    ident(lib, depth_of_offence != "library")
+    defs = []
+    for k in range(rng.randint(1, 3)):
+        d = lib.create_definition("d%d" % k)
+        ident(d, depth_of_offence != "definition")
+        defs.append(d)
+        for j in range(rng.randint(0, 3)):
+            x = rng.choice([lambda: d.create_port("p%d" % j, pins=1), lambda: d.create_cable("c%d" % j, wires=1),
+                            lambda: d.create_child("i%d" % j, reference=defs[0])])()
+            if rng.random() < 0.8:
+                ident(x, depth_of_offence != "child")
+    what = rng.choice(["library", "definition"])
+    sub, parent = (lib, n) if what == "library" else (sdn.Definition("orph_def"), host_lib)
+    if what == "definition":
+        ident(sub, depth_of_offence != "definition")
+        for j in range(rng.randint(1, 4)):
+            x = rng.choice([lambda: sub.create_port("p%d" % j, pins=1), lambda: sub.create_cable("c%d" % j, wires=1),
+                            lambda: sub.create_child("i%d" % j, reference=host_def)])()
+            if rng.random() < 0.8:
+                ident(x, depth_of_offence != "child")
+
+    def offences(root):
+        out = []
+        stack = [root]
+        while stack:
+            e = stack.pop()
+            v = e.get("EDIF.identifier")
+            if v is not None and not LEGAL.match(v):
+                out.append("illegal %r on %s" % (v, type(e).__name__))
+            groups = []
+            if isinstance(e, sdn.Library):
+                groups = [list(e.definitions)]
+            elif isinstance(e, sdn.Definition):
+                groups = [list(e.ports), list(e.cables), list(e.children)]
+            for g in groups:
+                low = [c["EDIF.identifier"].lower() for c in g if "EDIF.identifier" in c]
+                if len(low) != len(set(low)):
+                    out.append("case-insensitive duplicate among %d siblings of %s" % (len(g), type(e).__name__))
+                stack += g
+        return out
+    off = offences(sub)
+    # sibling conflicts with the host scope
+    sibs = list(n.libraries) if what == "library" else list(host_lib.definitions)
+    if any("EDIF.identifier" in s_ and "EDIF.identifier" in sub and s_["EDIF.identifier"].lower() == sub["EDIF.identifier"].lower() for s_ in sibs):
+        off.append("identifier of the subtree root collides with a sibling in the host scope")
+    ctx.count("cross_policy_adds")
+    try:
+        (n.add_library if what == "library" else host_lib.add_definition)(sub)
+        accepted = True
+    except ValueError:
+        accepted = False
+    except Exception as ex:  # noqa: BLE001
+        ctx.violation("cross-policy-add-crashed:%s" % type(ex).__name__, "%r at %s" % (ex, probes.innermost_frame(ex)))
+        return
+    ctx.count("naming_edits_judged")
+    if accepted and off:
+        ctx.violation("cross-policy-add-accepts-noncompliant-subtree", "add_%s of a DEFAULT-built orphan accepted under the EDIF policy although: %s" % (what, off[:3]))
+        return
+    if not accepted and not off:
+        ctx.violation("cross-policy-add-false-refusal", "add_%s of a compliant DEFAULT-built orphan was refused under the EDIF policy" % what)
+        return
+    if accepted:
+        for P in [n] + list(n.libraries) + [d_ for l in n.libraries for d_ in l.definitions]:
+            r = scan_scope(ctx, P)
+            if r:
+                ctx.violation("cross-policy:%s" % r[0], r[1])
+                return
+    ctx.fingerprint(("cross", what, tuple(off), accepted), True)
+
+
 def run_case(ctx, i, rng):
     if i % 6 == 5:
         return reader_case(ctx, i, rng)
+    if i % 6 == 4:
+        try:
+            for _ in range(8):
+                cross_policy_case(ctx, i, rng)
+            return
+        finally:
+            sdn.namespace_manager.default = "DEFAULT"
     policy = "EDIF" if i % 2 else "DEFAULT"
     sdn.namespace_manager.default = policy
     try:
